@@ -736,6 +736,8 @@ def std_summaries():
     P[r'std::cmp::Ordering::reverse'] = lambda se, env, pc, o: one(env, If(o == BitVecVal(0xff, 8), BitVecVal(1, 8), If(o == BitVecVal(1, 8), BitVecVal(0xff, 8), o)))
     P[r'std::io::Error::kind'] = lambda se, env, pc, e: one(env, (se.deref(env, e) if isinstance(e, Ref) else e).get('kind', Opaque('kind')) if isinstance((se.deref(env, e) if isinstance(e, Ref) else e), dict) else Opaque('kind'))
     P[r'<.* as ToString>::to_string'] = lambda se, env, pc, e: one(env, {'str': '<to_string>'})
+    P[r'std::io::Error::new'] = lambda se, env, pc, kind, msg: one(env, {'kind': kind, '__ty': 'io::Error'})
+    P[r'<std::io::Error as From<std::io::ErrorKind>>::from'] = lambda se, env, pc, kind: one(env, {'kind': kind, '__ty': 'io::Error'})
     P[r'std::mem::drop'] = unit
     combinator_summaries(P)
     P[r'core::mem::drop'] = unit
